@@ -360,3 +360,13 @@ mutant("C16-M15", "C16", "R16d", "population sheet header renamed on the writer"
 mutant("C16-M16", "C16", "R16c", "new handler reading its own failed assignment", PR, "ProgramSet._read_spending", "            prog = self.programs[tdve.name]\n", "            try:\n                prog = self.programs[tdve.name]\n            except KeyError:\n                raise Exception('Unknown program %s' % prog.name)\n")
 twin("C16-T2", "C16", "labels hoisted into shared constants would still be literals at the use sites: reader accepts an extra legacy alias", PR, "ProgramSet._read_spending", "            if \"Capacity\" in tdve.ts:", "            if \"Capacity limit\" in tdve.ts:\n                set_ts(prog, \"capacity_constraint\", tdve.ts[\"Capacity limit\"])\n            elif \"Capacity\" in tdve.ts:")
 twin("C16-T3", "C16", "handler uses the loop key instead of the failed local", PA, "ParameterSet.load_calibration", "                    logger.debug(f\"{par.name} in {pop_name} was not found, ignoring y-factors for this quantity\")\n                else:\n                    logger.debug(f\"{par.name} was not found, ignoring y-factors for this quantity\")", "                    logger.debug(f\"{par_name} in {pop_name} was not found, ignoring y-factors for this quantity\")\n                else:\n                    logger.debug(f\"{par_name} was not found, ignoring y-factors for this quantity\")")
+
+# =============================================================================================== C17
+mutant("C17-M2", "C17", "R17c", "ParameterSet.sample without dcp", PA, "ParameterSet.sample", "new = sc.dcp(self)", "new = self")
+mutant("C17-M3", "C17", "R17c", "TimeSeries.sample edits self.vals", U, "TimeSeries.sample", "                new.vals = [v + delta for v in new.vals]", "                self.vals[:] = [v + delta for v in self.vals]")
+mutant("C17-M4", "C17", "R17d", "draw not scaled by sigma", U, "TimeSeries.sample", "            delta = self.sigma * np.random.randn(1)[0]", "            delta = np.random.randn(1)[0]")
+mutant("C17-M6", "C17", "R17a", "new pool submission of a sampling function without reseed", RS, "Ensemble.run_sims", "            self.samples = sc.parallelize(", "            extra = parallel_progress(functools.partial(_sample_and_map, proj=proj, parset=parset), 2)\n            self.samples = sc.parallelize(")
+mutant("C17-M7", "C17", "R17d", "Covout.sample draws even when sigma is None", PR, "Covout.sample", "        if self.sigma is None:\n            return\n", "")
+mutant("C17-M8", "C17", "R17c", "ProgramSet.sample perturbs the source covouts", PR, "ProgramSet.sample", "        for covout in new.covouts.values():", "        for covout in self.covouts.values():")
+mutant("C17-M9", "C17", "R17b", "Program.sample reads a misspelt attribute", PR, "Program.sample", "self.saturation = self.saturation.sample(constant)", "self.saturation = self.saturations.sample(constant)")
+twin("C17-T3", "C17", "ProgramSet.sample via copy.deepcopy", PR, "ProgramSet.sample", "new = sc.dcp(self)", "new = copy.deepcopy(self)")
